@@ -547,7 +547,7 @@ def t5_snapshot(k: int) -> bool:
 
 
 # =========================================================================== T4r: restore under completion orders / latencies
-def restore_case(conc, di, fs, enc):
+def restore_case(conc, di, fs, enc, wfail=None):
     """snapshot once (sequentially), then restore with `conc` loader slots and a latency pattern: identical tree, slots
     restored, in-flight transfers <= conc."""
     from vt.harness.gc import users, fresh_repo
@@ -567,10 +567,28 @@ def restore_case(conc, di, fs, enc):
         be.delays = delays
         repo = rt.guard_slots(fresh_repo(U, 'A', be, concurrent=conc))
         before = be.max_inflight = 0
+        if wfail is not None:
+            # the wfail-th write of a file part fails in its writer thread (disk full): a sequential restore would stop with
+            # that error, so this one must not report success with a damaged file
+            real_w, nw = repo._write_file_part, {'n': 0}
+
+            def failing_write(*a, **k):
+                nw['n'] += 1
+                if nw['n'] - 1 == wfail:
+                    raise OSError(28, 'No space left on device (injected)')
+                return real_w(*a, **k)
+            repo._write_file_part = failing_write
         try:
             res = rt.MiniLoop().run_until_complete(repo.restore(path=d / 'out'))
         except Exception as e:
+            if wfail is not None and nw['n'] > wfail:
+                return True, 'raised'
             return False, f'restore raised {e!r}'
+        if wfail is not None and nw['n'] > wfail:
+            got = {'/' + k: v[0] for k, v in world.tree_state(d / 'out').items()}
+            if got != want:
+                bad = [k for k in want if got.get(k) != want[k]]
+                return False, f'write #{wfail} of a file part failed in its writer thread, yet restore reported success; {len(bad)} file(s) differ from the snapshot'
         if rt.THREAD_VIOLATIONS:
             return False, rt.THREAD_VIOLATIONS[0] + ' (lost wake-ups: a loader can wait forever for a slot that is free)'
         got = {'/' + k: v[0] for k, v in world.tree_state(d / 'out').items()}
@@ -587,13 +605,13 @@ def restore_case(conc, di, fs, enc):
 
 def t4_restore(k: int) -> bool:
     """
-    pre: 0 <= k < 3 * 6 * 5 * 2
+    pre: shard(3 * 6 * 5 * 2 * 4)[0] <= k < shard(3 * 6 * 5 * 2 * 4)[1]
     post: _
     """
-    ci, di, fs, enc = digits(k, [3, 6, 5, 2])
+    ci, di, fs, enc, wi = digits(k, [3, 6, 5, 2, 4])
     with NoTracing():
-        ok, msg = restore_case([1, 2, 4][ci], di, fs, enc)
-        tick('t4r', [[1, 2, 4][ci], di, FSETS[fs], enc])
+        ok, msg = restore_case([1, 2, 4][ci], di, fs, enc, [None, 0, 2, 5][wi])
+        tick('t4r', [[1, 2, 4][ci], di, FSETS[fs], enc, wi, msg[:6]])
         if not ok:
             _say(msg)
         return ok
